@@ -80,7 +80,10 @@ ElemsOf(f) == {f[i] : i \in 1..Len(f)}
 C34_SharesValidate == (IsDeal /\ ~IsKnown(ev)) =>
     \A i, j \in TParties : (ev.valid[i][j] <=> ~Tampered(i, j))
 (* every party's aggregated key signs messages that verify under its group-derived public key *)
-C34_PartyKeysVerify == (IsDeal /\ ~IsKnown(ev)) => \A j \in TParties : ev.party_ok[j]
+C34_PartyKeysVerify == (IsDeal /\ ~IsKnown(ev)) =>
+    /\ \A j \in TParties : ev.party_ok[j]
+    \* ... and again after the same DKG objects were re-aggregated over a smaller qualified set
+    /\ \A j \in 1..Len(ev.reagg_ok) : ev.reagg_ok[j]
 (* >= t shares (any subset, any order): THE group signature, verifying under the group / original key; < t: not *)
 C34_Recovery == (IsCombine /\ ~IsKnown(ev)) =>
     /\ (ev.k >= Needed) => (~ev.err /\ ev.verifies /\ ev.same_as_ref /\ ev.api_agree)
